@@ -41,7 +41,7 @@ fn boundary_ints() -> Vec<i64> {
 
 fn decimal_spellings() -> Vec<String> {
     let mut v = vec![];
-    for s in ["0.5", ".5", "-.5", "+.5", "+1", "+0", "-0", "0.0", "-0.0", "1.0", "1e3", "1E3", "1e+3", "1e-3", "1.5e2", "-1.5e-2", "1e-7", "1e-10", "3e-8", "1e10", "1.17549435e-38", "3.4e38", "0.1234567", "1234.567", "123456.7", "0.000001234567", "7.5", "37.5", "0.1", "0.2", "0.3", "1.1", "33.3333", "66.66667", "99.999999", "0.999999", "0.9999999", "1.0000001", "16777217.5", "1000000.5", "0.30000001", "2.5", "750", "375", "1", "2", "3"] {
+    for s in ["0.5", ".5", "-.5", "+.5", "+1", "+0", "-0", "0.0", "-0.0", "1.0", "1e3", "1E3", "1e+3", "1e-3", "1.5e2", "-1.5e-2", "1e-7", "1e-10", "3e-8", "1e10", "1e37", "-2e36", "1.17549435e-38", "3.4e38", "0.1234567", "1234.567", "123456.7", "0.000001234567", "7.5", "37.5", "0.1", "0.2", "0.3", "1.1", "33.3333", "66.66667", "99.999999", "0.999999", "0.9999999", "1.0000001", "16777217.5", "1000000.5", "0.30000001", "2.5", "750", "375", "1", "2", "3"] {
         v.push(s.to_string());
     }
     v
@@ -80,7 +80,7 @@ fn build_jobs(thorough: bool) -> Vec<Job> {
     for c in 0..CONTEXTS.len() {
         for u in 0..UNITS.len() {
             for r in RATIOS {
-                if UNITS[u] != "rpx" && *r != 750. {
+                if !UNITS[u].eq_ignore_ascii_case("rpx") && *r != 750. {
                     continue;
                 }
                 jobs.push(Job { ctx: c, unit: u, ratio: *r, nums: NumSource::List(bl.clone()) });
@@ -167,7 +167,8 @@ fn judge_number(input: &T, output: &T, ratio: f32) -> Option<(String, String)> {
     if is_pct != matches!(output, T::Pct { .. }) {
         return Some(("kind-changed".into(), format!("{:?} became {:?}", input, output)));
     }
-    if iunit == "rpx" {
+    // (unit names are ASCII case-insensitive: RPX is rpx)
+    if iunit.eq_ignore_ascii_case("rpx") {
         if ounit != "vw" {
             return Some(("rpx-unit".into(), format!("{:?} became {:?}", input, output)));
         }
@@ -183,7 +184,7 @@ fn judge_number(input: &T, output: &T, ratio: f32) -> Option<(String, String)> {
             return None;
         }
         // the f32 result the statement prescribes, printed with six digits
-        let f = iv * 100. / ratio;
+        let f = (iv as f64 * 100. / ratio as f64) as f32;
         let six = six_digit(f);
         if ov == six || (ov as f64 - six as f64).abs() <= EPS * (six as f64).abs() {
             return Some(("six-digit-printer".into(), format!("{:?} (ratio {}) became {:?}: exact {} printed with six significant digits", input, ratio, output, f)));
